@@ -276,7 +276,7 @@ func (l *c09Live) step(ctx context.Context, h *c09Hist) (delivered bool, viol st
 	}
 	// nothing pending: the model position moves to the end of the log (all examined)
 	if !l.m.ended {
-		if ex.lostAllowed {
+		if ex.lostAllowed && !l.unpos {
 			return false, fmt.Sprintf("%s: TryNext false without error although its own position was discarded (lungo reports this as lost position)", l.desc)
 		}
 		l.m.p = len(h.H) - 1
